@@ -374,8 +374,23 @@ func c17Process(x *runCtx, c *c17Case, o *c17Obs) {
 			if c.Mod == "upload" && c.ownMTU() < 1042 && strings.Contains(diff, "chunks") {
 				diff += "@ownmtu<1042"
 			}
+			// an honest transfer that the model (whose delivery theorem covers every size from the minimum up) completes and
+			// the implementation does not: the file did not arrive although sizes, chunk size and content are in range
+			if (c.kind() == "honest" || !o.Applied) && c17Field(impl, "fs") == "none" && c17Field(modelOut, "fs") == "file" {
+				return true, "C17." + tag + ":not-delivered-where-the-model-delivers", o.ErrText
+			}
 			return len(findings) > 0, "C17.corr." + tag + ":" + diff, o.ErrText
 		}})
+}
+
+// c17Field reads one key=value field of an impl/model line
+func c17Field(line, key string) string {
+	for _, f := range strings.Fields(line) {
+		if strings.HasPrefix(f, key+"=") {
+			return f[len(key)+1:]
+		}
+	}
+	return ""
 }
 
 func c17RunAll(x *runCtx, cases []*c17Case) {
